@@ -86,7 +86,7 @@ def run_on_copy(name, rel, old, new, props):
     import shutil
     base = "/dev/shm/cvmut_%s" % name
     shutil.rmtree(base, ignore_errors=True)
-    shutil.copytree(os.path.join(REPO, "src"), os.path.join(base, "src"), ignore=shutil.ignore_patterns("__pycache__"))
+    shutil.copytree(os.path.join(REPO, "src"), os.path.join(base, "src"), ignore=shutil.ignore_patterns("__pycache__", "static"), symlinks=True)
     path = os.path.join(base, "src/conductor", rel)
     src = open(path).read()
     out = []
